@@ -219,6 +219,7 @@ def resolveExprCore (l' r' : Value) (op : Char) (mode : Mode) : R Value :=
     | Option.none => .error .other
     | some z =>
       let s : Str := if z < 0 then '-' :: (toString z.natAbs).toList else (toString z.natAbs).toList
+      let m := if z > 255 && m == .direct then Mode.extended else m
       match numericOfStr s Option.none m with
       | .ok nv => .ok nv
       | .error _ => .error .other
@@ -332,36 +333,29 @@ theorem resolveOperand_mono {t t' : SymTab} (hle : SymTab.Le t t') {o r : Operan
       obtain ⟨a, ha, hf⟩ := map_ok h
       rw [resolveLeft_mono hle ha]; exact congrArg Except.ok hf
     · rename_i hc; rw [if_neg hc]; exact h
-  have hdef : (match o.value.resolve t with
-      | .error e => .error e
-      | .ok v =>
-        if o.kind != .unknown then .ok { o with value := v }
-        else
-          match v with
-          | .pyNone => .error .other
-          | .numeric i _ _ _ =>
-            if v.isDirect || o.value.isExplicitDirect then
-              (numericOfInt i none .direct).map (fun nv => { o with kind := .direct, value := nv })
-            else .ok { o with kind := .extended, value := v }
-          | _ => .ok { o with kind := .extended, value := v }) = Except.ok r →
-      (match o.value.resolve t' with
-      | .error e => .error e
-      | .ok v =>
-        if o.kind != .unknown then .ok { o with value := v }
-        else
-          match v with
-          | .pyNone => .error .other
-          | .numeric i _ _ _ =>
-            if v.isDirect || o.value.isExplicitDirect then
-              (numericOfInt i none .direct).map (fun nv => { o with kind := .direct, value := nv })
-            else .ok { o with kind := .extended, value := v }
-          | _ => .ok { o with kind := .extended, value := v }) = Except.ok r := by
-    intro h
+  have hval : ∀ {β : Type} (f : Value → R β) (x : β),
+      (match o.value.resolve t with | .error e => .error e | .ok v => f v) = Except.ok x →
+      (match o.value.resolve t' with | .error e => .error e | .ok v => f v) = Except.ok x := by
+    intro β f x h
     cases hr : o.value.resolve t with
     | error e => rw [hr] at h; cases h
     | ok v => rw [Value.resolve_mono hle hr]; rw [hr] at h; exact h
   unfold resolveOperand at h ⊢
-  cases hk : o.kind <;> simp only [hk] at h hdef ⊢ <;> first | exact h | exact hdef h | skip
+  cases hk : o.kind <;> simp only [hk] at h ⊢ <;> first | exact h | exact hval _ _ h | skip
+  · -- pseudo
+    split at h
+    · rename_i hc
+      rw [if_pos hc]
+      cases hv : o.value <;> rw [hv] at h <;> dsimp only at h ⊢ <;>
+        first
+        | (cases h; done)
+        | exact h
+        | (split at h
+           · rename_i hc2; rw [if_pos hc2]
+             obtain ⟨a, ha, hf⟩ := map_ok h
+             rw [Value.resolve_mono hle ha]; exact congrArg Except.ok hf
+           · rename_i hc2; rw [if_neg hc2]; exact h)
+    · rename_i hc; rw [if_neg hc]; exact h
   · -- extIndirect
     split at h
     · rename_i hc
